@@ -674,3 +674,214 @@ def rule_oneline(c: Ctx) -> RuleResult:
         raise AnchorError(f"only {n} source slices found in the block rules")
     r.floor = 6
     return r
+
+
+# ------------------------------------------------------------------------------------------------ COUNT
+def rule_count(c: Ctx) -> RuleResult:
+    """A markup string built by *repeating* the marker (`marker * E`, `'######'[:E]`) has as many characters as the scan
+    consumed: with n the counter (constant k, then `+= 1` under a test that the character read equals the marker) and d the
+    number of marker characters the cursor has passed when the counting loop starts (value numbering: cursor at the loop's
+    entry minus the index at which the marker was first read, which must be 0 or 1), E must be n + (d - k)."""
+    r = RuleResult("COUNT", "a markup string built by repeating the marker has exactly as many characters as marker characters were "
+                            "scanned: the repetition count is the scan's counter, corrected by exactly the number of markers consumed "
+                            "before the counting loop minus the counter's initial value")
+    from ..valnum import analyse as vn_analyse
+    decided = 0
+    for f in sorted(c.cg.parse_phase(), key=lambda x: x.qual):
+        if not f.module.rel.startswith("rules_block/"):
+            continue
+        sites = []
+        for n in own_nodes(f.node):
+            if isinstance(n, ast.Assign) and len(n.targets) == 1 and isinstance(n.targets[0], ast.Attribute) and n.targets[0].attr == "markup":
+                sites.append((n, n.value))
+        if not sites:
+            continue
+        rd = Reaching(c.cfg(f))
+        state = None
+        seen_keys: set[str] = set()
+        for stmt, val in sites:
+            v = val
+            if isinstance(v, ast.Name):
+                ds = rd.at_ast(stmt, v.id)
+                if len(ds) == 1 and next(iter(ds)).kind == "assign" and next(iter(ds)).value is not None:
+                    v = next(iter(ds)).value
+            marker: ast.AST | None = None
+            E: ast.AST | None = None
+            if isinstance(v, ast.BinOp) and isinstance(v.op, ast.Mult):
+                for a, b in ((v.left, v.right), (v.right, v.left)):
+                    if isinstance(a, ast.Name) and c.tf.scope(f).type(a) == "str":
+                        marker, E = a, b
+                    elif isinstance(a, ast.Constant) and isinstance(a.value, str) and len(a.value) == 1:
+                        marker, E = a, b
+            elif isinstance(v, ast.Subscript) and isinstance(v.slice, ast.Slice) and v.slice.lower is None and v.slice.step is None \
+                    and v.slice.upper is not None and isinstance(v.value, ast.Constant) and isinstance(v.value.value, str) \
+                    and len(set(v.value.value)) == 1:
+                marker, E = ast.Constant(value=v.value.value[0]), v.slice.upper
+            if marker is None or E is None:
+                continue
+            key = f"{f.short}|markup|{alpha(f, v)[:60]}"
+            if key in seen_keys:
+                continue
+            seen_keys.add(key)
+            if state is None:
+                state = vn_analyse(c, f)
+            got = _count_relation(c, f, rd, state, stmt, marker, E)
+            if isinstance(got, str):
+                r.add(key, c.where(f, stmt), f.short, U(stmt)[:70], "exempt", "count relation not decided: " + got)
+                continue
+            decided += 1
+            n_name, k, d, off = got
+            ok = off == d - k
+            r.add(key, c.where(f, stmt), f.short, U(stmt)[:70], "discharged" if ok else "violation",
+                  f"counter `{n_name}` starts at {k} with {d} marker character(s) consumed before the counting loop; the count used is "
+                  f"`{n_name}{off:+d}`" + ("" if ok else
+                  f", but the marker occurs {n_name}{d - k:+d} times in the source: the recorded markup is {abs(off - (d - k))} character(s) "
+                  f"{'longer' if off > d - k else 'shorter'} than what was written"))
+    if decided < 1:
+        raise AnchorError("no repetition-built markup whose count relation could be decided (hr / heading expected)")
+    r.floor = 1
+    return r
+
+
+def _count_relation(c: Ctx, f: Func, rd: Reaching, state, stmt: ast.AST, marker: ast.AST, E: ast.AST):
+    """-> (counter name, k, d, offset of E over the counter) or a reason string."""
+    vcfg, vres, vn = state
+    # E = n (+/- const)
+    off = 0
+    e = E
+    if isinstance(e, ast.BinOp) and isinstance(e.op, (ast.Add, ast.Sub)) and isinstance(e.right, ast.Constant) and isinstance(e.right.value, int):
+        off = e.right.value if isinstance(e.op, ast.Add) else -e.right.value
+        e = e.left
+    elif isinstance(e, ast.BinOp) and isinstance(e.op, ast.Add) and isinstance(e.left, ast.Constant) and isinstance(e.left.value, int):
+        off, e = e.left.value, e.right
+    if not isinstance(e, ast.Name):
+        return "the count is not a counter variable plus a constant"
+    n_name = e.id
+    inits: list[int] = []
+    incs: list[ast.AST] = []
+    for n in own_nodes(f.node):
+        if isinstance(n, ast.Assign) and any(isinstance(t, ast.Name) and t.id == n_name for t in n.targets):
+            if isinstance(n.value, ast.Constant) and isinstance(n.value.value, int) and not isinstance(n.value.value, bool):
+                inits.append(n.value.value)
+            elif isinstance(n.value, ast.BinOp) and isinstance(n.value.op, ast.Add) and isinstance(n.value.left, ast.Name) and n.value.left.id == n_name \
+                    and isinstance(n.value.right, ast.Constant) and n.value.right.value == 1:
+                incs.append(n)
+            else:
+                return f"`{n_name}` has a definition that is neither a constant nor `+= 1`"
+        elif isinstance(n, ast.AugAssign) and isinstance(n.target, ast.Name) and n.target.id == n_name:
+            if isinstance(n.op, ast.Add) and isinstance(n.value, ast.Constant) and n.value.value == 1:
+                incs.append(n)
+            else:
+                return f"`{n_name}` is updated by something other than `+= 1`"
+        elif isinstance(n, ast.AnnAssign) and isinstance(n.target, ast.Name) and n.target.id == n_name:
+            if n.value is not None and isinstance(n.value, ast.Constant) and isinstance(n.value.value, int):
+                inits.append(n.value.value)
+            elif n.value is not None:
+                return f"`{n_name}` has a non-constant initial value"
+        elif isinstance(n, (ast.For, ast.comprehension)) and any(isinstance(x, ast.Name) and x.id == n_name for x in ast.walk(n.target)):
+            return f"`{n_name}` is a loop target"
+    if len(set(inits)) != 1 or not incs:
+        return f"`{n_name}` is not a counter (initial constants {inits}, {len(incs)} increments)"
+    k = inits[0]
+    parents = f.module.parents
+    # the counting loop: the innermost loop around the increments (all in one loop)
+    loops = set()
+    for inc in incs:
+        q = parents.get(inc)
+        while q is not None and not isinstance(q, (ast.While, ast.For)):
+            q = parents.get(q)
+        loops.add(q)
+    if len(loops) != 1 or None in loops:
+        return "the increments are not in one loop"
+    loop = next(iter(loops))
+    mtxt = U(marker)
+
+    def eq_marker(t: ast.AST) -> bool:
+        for x in ast.walk(t):
+            if isinstance(x, ast.Compare) and len(x.ops) == 1 and isinstance(x.ops[0], ast.Eq) and mtxt in (U(x.left), U(x.comparators[0])):
+                return True
+        return False
+    for inc in incs:
+        q: ast.AST | None = inc
+        guarded = False
+        while q is not None and q is not loop:
+            ch = q
+            q = parents.get(q)
+            if isinstance(q, ast.If) and ch in q.body and eq_marker(q.test):
+                guarded = True
+        if isinstance(loop, ast.While) and eq_marker(loop.test):
+            guarded = True
+        if not guarded:
+            return "an increment is not under a test that the character read equals the marker"
+    # the source string and the index of the first marker read
+    first_read: ast.Subscript | None = None
+    first_stmt: ast.AST | None = None
+    if isinstance(marker, ast.Name):
+        ds = [d for d in rd.at_ast(stmt, marker.id)]
+        vals = [d.value for d in ds if d.kind == "assign"]
+        if len(vals) != 1 or not (isinstance(vals[0], ast.Subscript) and not isinstance(vals[0].slice, ast.Slice)):
+            return "the marker is not a single character read of the source"
+        first_read, first_stmt = vals[0], next(iter(ds)).stmt
+    else:
+        # constant marker: the earliest `v = S[i]` whose value is compared with the constant
+        cands = []
+        for n in own_nodes(f.node):
+            if isinstance(n, (ast.Assign, ast.AnnAssign)) and n.value is not None and isinstance(n.value, ast.Subscript) \
+                    and not isinstance(n.value.slice, ast.Slice) and c.tf.scope(f).type(n.value.value) == "str":
+                t = n.targets[0] if isinstance(n, ast.Assign) else n.target
+                if isinstance(t, ast.Name) and any(isinstance(x, ast.Compare) and len(x.ops) == 1 and isinstance(x.ops[0], (ast.Eq, ast.NotEq))
+                                                   and {U(x.left), U(x.comparators[0])} == {t.id, mtxt} for x in own_nodes(f.node)):
+                    cands.append(n)
+        if not cands:
+            return "no first read of the constant marker found"
+        cands.sort(key=lambda n: (n.lineno, n.col_offset))
+        first_stmt, first_read = cands[0], cands[0].value          # type: ignore[assignment]
+        if any(cands[0] is x for x in ast.walk(loop)):
+            return "the first read of the marker is inside the counting loop"
+    S = U(first_read.value)
+    # cursor of the loop: index of a read of S inside the loop (or the lower bound of the slice a `for` iterates)
+    cursor: ast.AST | None = None
+    if isinstance(loop, ast.For) and isinstance(loop.iter, ast.Subscript) and isinstance(loop.iter.slice, ast.Slice) and U(loop.iter.value) == S \
+            and loop.iter.slice.lower is not None:
+        cursor = loop.iter.slice.lower
+    else:
+        for x in ast.walk(loop):
+            if isinstance(x, ast.Subscript) and not isinstance(x.slice, ast.Slice) and U(x.value) == S and isinstance(x.ctx, ast.Load):
+                cursor = x.slice
+                break
+        if cursor is None:
+            # the loop tests a character variable that is re-read by a helper / before the loop: use the index of the last read before it
+            return "no read of the source inside the counting loop"
+    # value of the read index at the first read, and of the cursor where the loop is entered
+    v_read = None
+    for nd in vcfg.owner(first_read):
+        env = vres.get(nd.id)
+        if env is not None:
+            v_read = vn.val(first_read.slice, env, nd.id)
+    if v_read is None:
+        return "first read unreachable"
+    head = next((nd for nd in vcfg.nodes if nd.ast is loop and nd.kind in ("join", "for", "test")), None)
+    if head is None:
+        return "loop head not found"
+    inside = {id(x) for x in ast.walk(loop)}
+    entries = []
+    for (p, lab) in head.pred:
+        if p.ast is not None and id(p.ast) in inside and p.ast is not loop:
+            continue          # back edge
+        env = vres.get(p.id)
+        if env is None:
+            continue
+        env2 = vn.edge(p, env, lab, head)
+        if env2 is not None:
+            entries.append(vn.val(cursor, env2, head.id))
+    if not entries or len(set(entries)) != 1:
+        return "the cursor has no single value where the loop is entered"
+    v_loop = entries[0]
+    from ..valnum import add as vadd
+    d = None
+    for cand in (0, 1):
+        if v_loop == vadd(v_read, cand):
+            d = cand
+    if d is None:
+        return "the cursor at the loop entry is not the index of the first read, or one past it"
+    return n_name, k, d, off
